@@ -429,6 +429,11 @@ var groups = []group{
 	// a custom function NAME that different Extensions bind to different functions
 	{"normalize", []string{
 		`"nz": {"custom_func":{"name":"normalize","args":[{"xpath":"a","keep_empty_or_null":true}]}}`}, nil, ""},
+	// UNION xpaths on array elements: two or more matches per record, in the engine's order
+	{"union", []string{
+		`"un1": {"array":[{"xpath":"a | c"}]}`, `"un2": {"array":[{"xpath":"c | a"}]}`,
+		`"un3": {"array":[{"xpath":"*[1] | *[last()]"}]}`, `"un4": {"array":[{"xpath":"c | b | a"}]}`,
+		`"un5": {"array":[{"xpath":"b | a","object":{"v":{"xpath":"."}}}]}`}, nil, ""},
 	// a script reading globals it was not passed
 	{"js-global-probe", []string{
 		`"probe": {"custom_func":{"name":"javascript","args":[{"const":"typeof discount === 'undefined' ? 0 : discount"}]}}`,
